@@ -1254,6 +1254,15 @@ func Cluster(eco string, r *rand.Rand) []string {
 			out = append(out, stem+".1", stem+".2", stem+".a", stem)
 		}
 	}
+	// non-ASCII letter-case family: the same unknown word in upper, lower and title case with letters outside A-Z
+	// (Latin-1, Cyrillic): "case-insensitive" code that folds A-Z only treats them as different words
+	if chance(r, 1, 8) {
+		sep := pick(r, "-", ".")
+		for _, wd := range [][]string{{"ÄNDERUNG", "änderung", "Änderung"}, {"РЕЛИЗ", "релиз", "Релиз"}, {"ÉTÉ", "été", "Été"}, {"ÜBER", "über", "Über"}}[r.IntN(4)] {
+			out = append(out, base+sep+wd, base+sep+wd+"1", base+sep+wd+sep+"2")
+		}
+		out = append(out, base+sep+"àjour", base+sep+"zeta", base+sep+"Zeta")
+	}
 	// maven: the unique snapshots of this base as a repository lists them, next to the literal -SNAPSHOT
 	if eco == "maven" && chance(r, 1, 5) {
 		out = append(out, base+"-SNAPSHOT", base+"-snapshot")
@@ -1326,7 +1335,7 @@ func MavenConventional(s string) bool {
 	return true
 }
 
-var mavenConv = regexp.MustCompile(`^[0-9]+(?:\.[0-9]+){0,3}(?:[.-](?:([A-Za-z]+)((?:[.-]?[0-9]+)?)|[0-9]+))?$`)
+var mavenConv = regexp.MustCompile(`^[0-9]+(?:\.[0-9]+){0,3}(?:[.-](?:([A-Za-z\x{00C0}-\x{00D6}\x{00D8}-\x{00F6}\x{00F8}-\x{00FF}\x{0410}-\x{044F}]+)((?:[.-]?[0-9]+)?)|[0-9]+))?$`)
 
 // Pick returns one of xs.
 func Pick(r *rand.Rand, xs ...string) string { return xs[r.IntN(len(xs))] }
